@@ -107,6 +107,9 @@ def init_security(config: ConfigParser) -> None:
     if config.getboolean("pygopherd", "usechroot"):
         chroot_user = config.get("pygopherd", "root")
         os.chroot(chroot_user)
+        # chroot(2) does not change the working directory: move inside the
+        # new root, or everything stays reachable through relative paths.
+        os.chdir("/")
         logger.log(f"Chrooted to {chroot_user}")
         config.set("pygopherd", "root", "/")
 
